@@ -31,6 +31,9 @@ def transient_family() -> list[dict]:
     for k in (0, 1, 3, 8, 9, 10, 12):
         fam.append(PR.P(f"tr{k}", [PR.S("a", tasks=[PR.T("a.1", "transient", k)]), PR.S("b", ["a"])]))
     fam.append(PR.P("trnc3", [PR.S("a", tasks=[PR.T("a.1", "transientNoCtx", 3)]), PR.S("b", ["a"])]))
+    # a stage verifier answering RETRY (TransientVerificationError) k times: same path as a transient error without progress
+    fam.append(PR.P("vfy1", [PR.S("a", tasks=[PR.T("a.1", "verify", 1)]), PR.S("b", ["a"])]))
+    fam.append(PR.P("vfy3", [PR.S("a"), PR.S("b", ["a"], tasks=[PR.T("b.1", "verify", 3)]), PR.S("c", ["b"])]))
     fam.append(PR.P("trnc12", [PR.S("a", tasks=[PR.T("a.1", "transientNoCtx", 12)]), PR.S("b", ["a"])]))
     fam.append(PR.P("trmid", [PR.S("a", tasks=[PR.T("a.1"), PR.T("a.2", "transient", 2), PR.T("a.3")])]))
     fam.append(PR.P("trlast", [PR.S("a", tasks=[PR.T("a.1"), PR.T("a.2", "transient", 11)], cof=True),
@@ -347,7 +350,7 @@ def plan(pid: str, tier: str, seed: int) -> dict:
                + ([] if quick else [(n, {"AnyOrder": "TRUE", "MaxCancels": 1}, {"depth": 70}) for n in ("diamond", "failbranch")]),
         )
     if pid == "C18":
-        progs = [PR.by_name(n) for n in ("susp", "suspmulti", "suspside", "susp2")]
+        progs = [PR.by_name(n) for n in ("susp", "suspmulti", "suspside", "susp2", "suspsame")]
         return dict(
             progs=progs, props=["C18_StaysSuspended", "C18_NeverLost", "C18_NotSittingOnSignal", "C18_ResumeOncePerSignal",
                                 "C18_TransientNoEffect", "C18_SawSignalOnlyIfDelivered", "C18_ConsumedOnce", "C06_Legal"],
